@@ -23,6 +23,7 @@ import (
 	dbm "github.com/dappledger/AnnChain/gemmill/modules/go-db"
 	events "github.com/dappledger/AnnChain/gemmill/modules/go-events"
 	glog "github.com/dappledger/AnnChain/gemmill/modules/go-log"
+	"github.com/dappledger/AnnChain/gemmill/p2p"
 	sm "github.com/dappledger/AnnChain/gemmill/state"
 	"github.com/dappledger/AnnChain/gemmill/types"
 )
@@ -53,6 +54,9 @@ type Config struct {
 	// VerifSetProposer) to what the pre-crash object had. Used only to keep searching behind the
 	// recorded finding "proposer cache lost on reload"; Net.Repairs counts the uses.
 	RepairProposer bool
+	// Reactor: give every honest node a real ConsensusReactor (bound to an unstarted p2p.Switch
+	// without peers) so that peer bytes can be fed through the real Receive.
+	Reactor bool
 }
 
 type Flight struct {
@@ -68,27 +72,28 @@ type Committed struct {
 }
 
 type Node struct {
-	ID      int
-	Addr    []byte
-	Priv    crypto.PrivKeyEd25519
-	Honest  bool
-	Alive   bool
-	PVFile  string
-	PV      *types.PrivValidator
-	StateDB dbm.DB
-	BlockDB dbm.DB
-	ArchDB  dbm.DB
-	Store   *bc.BlockStore
-	CS      *pbft.ConsensusState
-	Ctl     *pbft.VerifCtl
-	Evsw    types.EventSwitch
-	Pool    *Mempool
-	WalDir  string
-	Own     []pbft.ConsensusMessage // own messages in harness custody (not yet processed/broadcast)
-	Commits []Committed             // blocks this node committed, in order (survives restarts)
-	Emitted []pbft.ConsensusMessage // every own message that was processed and broadcast
+	ID       int
+	Addr     []byte
+	Priv     crypto.PrivKeyEd25519
+	Honest   bool
+	Alive    bool
+	PVFile   string
+	PV       *types.PrivValidator
+	StateDB  dbm.DB
+	BlockDB  dbm.DB
+	ArchDB   dbm.DB
+	Store    *bc.BlockStore
+	CS       *pbft.ConsensusState
+	Ctl      *pbft.VerifCtl
+	ConR     *pbft.ConsensusReactor
+	Evsw     types.EventSwitch
+	Pool     *Mempool
+	WalDir   string
+	Own      []pbft.ConsensusMessage // own messages in harness custody (not yet processed/broadcast)
+	Commits  []Committed             // blocks this node committed, in order (survives restarts)
+	Emitted  []pbft.ConsensusMessage // every own message that was processed and broadcast
 	Restarts int
-	net     *Net
+	net      *Net
 
 	savedProposer []byte // round-0 proposer of the current height as the pre-crash object knew it
 	savedHeight   int64
@@ -191,14 +196,14 @@ func (m *Mempool) Reap(int) []types.Tx {
 	m.Next = nil
 	return out
 }
-func (m *Mempool) ReceiveTx(types.Tx) error                       { return nil }
-func (m *Mempool) Update(int64, []types.Tx)                       {}
-func (m *Mempool) Size() int                                      { return 0 }
-func (m *Mempool) TxsFrontWait() *clist.CElement                  { return nil }
-func (m *Mempool) Flush()                                         {}
-func (m *Mempool) RegisterFilter(types.IFilter)                   {}
-func (m *Mempool) GetPendingMaxNonce([]byte) (uint64, error)      { return 0, nil }
-func (m *Mempool) Push(tx types.Tx)                               { m.mu.Lock(); m.Next = append(m.Next, tx); m.mu.Unlock() }
+func (m *Mempool) ReceiveTx(types.Tx) error                  { return nil }
+func (m *Mempool) Update(int64, []types.Tx)                  {}
+func (m *Mempool) Size() int                                 { return 0 }
+func (m *Mempool) TxsFrontWait() *clist.CElement             { return nil }
+func (m *Mempool) Flush()                                    {}
+func (m *Mempool) RegisterFilter(types.IFilter)              {}
+func (m *Mempool) GetPendingMaxNonce([]byte) (uint64, error) { return 0, nil }
+func (m *Mempool) Push(tx types.Tx)                          { m.mu.Lock(); m.Next = append(m.Next, tx); m.mu.Unlock() }
 
 // ---------------------------------------------------------------------------------------
 
@@ -302,7 +307,18 @@ func (n *Node) boot(st *sm.State) {
 	n.CS = cs
 	n.Ctl = pbft.VerifAttach(cs)
 	n.Alive = true
-	if _, err := cs.Start(); err != nil {
+	if n.net.Cfg.Reactor {
+		pc := viper.New()
+		sw := p2p.NewSwitch(pc)
+		conR := pbft.NewConsensusReactor(cs, false)
+		conR.SetSwitch(sw)
+		conR.SetEventSwitch(n.Evsw)
+		cs.BindReactor(conR)
+		n.ConR = conR
+		if _, err := conR.Start(); err != nil { // starts the consensus state as production does
+			panic(fmt.Sprintf("sim: reactor start: %v", err))
+		}
+	} else if _, err := cs.Start(); err != nil {
 		panic(fmt.Sprintf("sim: start: %v", err))
 	}
 	n.Ctl.WaitParked(1)
@@ -428,6 +444,16 @@ func (net *Net) Send(from, to int, m pbft.ConsensusMessage) {
 	if net.Nodes[to].Honest {
 		net.InFlight = append(net.InFlight, Flight{From: from, To: to, Msg: m})
 	}
+}
+
+// StepQueued lets the node process one message that its reactor's Receive has queued.
+func (net *Net) StepQueued(n *Node) bool {
+	if !n.Honest || !n.Alive || !n.Ctl.StepQueued() {
+		return false
+	}
+	net.Steps++
+	n.after()
+	return true
 }
 
 // Timeout fires pending timeout k of the node.
